@@ -64,7 +64,7 @@ func (im *impl) pushOne() bool {
 	if len(im.pending) > 0 {
 		buf := im.pending[0]
 		im.pending = im.pending[1:]
-		caller := append([]byte(nil), buf...)
+		caller := append([]byte(nil), buf...) // (nil for a zero-length write: Write(nil) is an empty write like any other)
 		im.w.Write(caller)
 		for i := range caller { // the writer must not retain the caller's buffer
 			caller[i] = 0xEE
